@@ -25,13 +25,13 @@
 //!   C17:answers-differ / C17:only-small-answers   the two runs disagree otherwise
 use std::net::IpAddr;
 
+use super::c16::MockClock;
 use super::c16::{
-    AField, Answer, AuthState, BIG_BUF, Built, Cfg, Findings, Fld, Handled, KeyEnv, Kind, Local, MAX_DATAGRAM, Out,
-    Req, Session, Sync, T_AUTH, T_UID, Zone, build, client_ip, grammar, key_env, kind_key, make_server, open_nts,
-    run_handle, walk,
+    AField, Answer, AuthState, BIG_BUF, Built, Cfg, Findings, Fld, Handled, KeyEnv, Kind, Local,
+    MAX_DATAGRAM, Out, Req, Session, Sync, T_AUTH, T_UID, Zone, build, client_ip, grammar, key_env,
+    kind_key, make_server, open_nts, run_handle, walk,
 };
 use super::common::{self, Ctx};
-use super::c16::MockClock;
 use crate::{Server, ServerReason, ServerResponse};
 
 /// The answer with everything that is random by design removed.
@@ -53,13 +53,23 @@ fn canon(raw: &[u8], sess: &Session) -> String {
                         "auth(declared={},nonce={},inner=[{}]);",
                         f.declared,
                         o.nonce.len(),
-                        o.inner.iter().map(|i| format!("{:04x}:{}", i.ty, i.declared)).collect::<Vec<_>>().join(",")
+                        o.inner
+                            .iter()
+                            .map(|i| format!("{:04x}:{}", i.ty, i.declared))
+                            .collect::<Vec<_>>()
+                            .join(",")
                     ));
                 }
                 None => s.push_str(&format!("auth-unopened(declared={});", f.declared)),
             }
         } else {
-            s.push_str(&format!("{:04x}:{}:{}:{};", f.ty, f.declared, common::hex(&f.body), common::hex(&f.pad)));
+            s.push_str(&format!(
+                "{:04x}:{}:{}:{};",
+                f.ty,
+                f.declared,
+                common::hex(&f.body),
+                common::hex(&f.pad)
+            ));
         }
     }
     s
@@ -92,7 +102,10 @@ fn classify(b: &Built, big: &Answer) -> &'static str {
         // find the next request uid whose body is a prefix of the answer's (rest zero padding)
         let mut matched = None;
         for (k, (body, wire)) in req_uids.iter().enumerate().skip(cursor) {
-            if f.body.len() >= body.len() && f.body[..body.len()] == body[..] && f.body[body.len()..].iter().all(|x| *x == 0) {
+            if f.body.len() >= body.len()
+                && f.body[..body.len()] == body[..]
+                && f.body[body.len()..].iter().all(|x| *x == 0)
+            {
                 matched = Some((k, *wire));
                 break;
             }
@@ -108,7 +121,10 @@ fn classify(b: &Built, big: &Answer) -> &'static str {
     let has_auth = big.fields.iter().any(|f| f.ty == T_AUTH);
     let mut growth_nonce = 0i64;
     if has_auth {
-        if let (Some(req_n), Some(f)) = (request_nonce_padded(b), big.fields.iter().find(|f| f.ty == T_AUTH)) {
+        if let (Some(req_n), Some(f)) = (
+            request_nonce_padded(b),
+            big.fields.iter().find(|f| f.ty == T_AUTH),
+        ) {
             if f.body.len() >= 2 {
                 let nl = u16::from_be_bytes([f.body[0], f.body[1]]) as usize;
                 growth_nonce = (((nl + 3) & !3) as i64 - req_n as i64).max(0);
@@ -149,7 +165,11 @@ impl Pair {
     }
 }
 
-fn differential(pair: &mut Pair, b: &Built, ip: IpAddr) -> (Result<Handled, String>, Result<Handled, String>) {
+fn differential(
+    pair: &mut Pair,
+    b: &Built,
+    ip: IpAddr,
+) -> (Result<Handled, String>, Result<Handled, String>) {
     let small = run_handle(&mut pair.small, ip, &b.bytes, b.bytes.len());
     let big = run_handle(&mut pair.big, ip, &b.bytes, BIG_BUF);
     (small, big)
@@ -166,13 +186,25 @@ fn judge(
     cut: usize,
 ) -> String {
     let sess = req.session();
-    let trace = || format!("{};k{};{};cut={}", cfg.code(), keys.rotated as u8, req.code(), cut);
+    let trace = || {
+        format!(
+            "{};k{};{};cut={}",
+            cfg.code(),
+            keys.rotated as u8,
+            req.code(),
+            cut
+        )
+    };
     let (small, big) = differential(pair, b, client_ip(0));
     let mut obs = String::new();
     let (small, big) = match (small, big) {
         (Ok(s), Ok(bg)) => (s, bg),
         (s, bg) => {
-            let msg = format!("panic: small={:?} big={:?}", s.as_ref().err(), bg.as_ref().err());
+            let msg = format!(
+                "panic: small={:?} big={:?}",
+                s.as_ref().err(),
+                bg.as_ref().err()
+            );
             findings.report("C17:panic", b.bytes.len(), || msg.clone(), trace);
             return msg;
         }
@@ -189,7 +221,9 @@ fn judge(
         (Out::Ignore, Out::Ignore) => {
             // "the policy decided to answer" is visible in the statistics: a failed
             // serialisation of the answer is registered as InternalError
-            let dropped = |regs: &Vec<(u8, bool, ServerReason, ServerResponse)>| regs.iter().any(|r| r.2 == ServerReason::InternalError);
+            let dropped = |regs: &Vec<(u8, bool, ServerReason, ServerResponse)>| {
+                regs.iter().any(|r| r.2 == ServerReason::InternalError)
+            };
             if dropped(&small.regs) || dropped(&big.regs) {
                 inc("both_drop_internal_error");
                 findings.report(
@@ -236,7 +270,12 @@ fn judge(
                 findings.report(
                     "C17:statistics-differ",
                     b.bytes.len(),
-                    || format!("request-sized buffer registered {:?}, 4096-byte buffer {:?}", small.regs, big.regs),
+                    || {
+                        format!(
+                            "request-sized buffer registered {:?}, 4096-byte buffer {:?}",
+                            small.regs, big.regs
+                        )
+                    },
                     trace,
                 );
             }
@@ -246,7 +285,12 @@ fn judge(
             findings.report(
                 "C17:only-small-answers",
                 b.bytes.len(),
-                || format!("request-sized run answered {} bytes, 4096-byte run ignored", sa.len()),
+                || {
+                    format!(
+                        "request-sized run answered {} bytes, 4096-byte run ignored",
+                        sa.len()
+                    )
+                },
                 trace,
             );
             obs.push_str("only small answers");
@@ -254,7 +298,11 @@ fn judge(
         (Out::Ignore, Out::Respond(ba)) => {
             inc("dropped");
             // statistics of the dropped run: the statement's "silently dropped"
-            if small.regs.iter().any(|r| r.2 == ServerReason::InternalError && r.3 == ServerResponse::Ignore) {
+            if small
+                .regs
+                .iter()
+                .any(|r| r.2 == ServerReason::InternalError && r.3 == ServerResponse::Ignore)
+            {
                 inc("dropped_registered_internal_error");
             }
             let class = if ba.len() <= b.bytes.len() {
@@ -283,7 +331,12 @@ fn judge(
                 },
                 trace,
             );
-            obs.push_str(&format!("dropped: {} > {} -> {}", ba.len(), b.bytes.len(), class));
+            obs.push_str(&format!(
+                "dropped: {} > {} -> {}",
+                ba.len(),
+                b.bytes.len(),
+                class
+            ));
         }
     }
     obs
@@ -299,7 +352,10 @@ fn replay(ctx: &Ctx, trace: &str) -> String {
         return format!("unparseable trace {trace:?}");
     };
     let keys = key_env(p[1] == "k1");
-    let cut: usize = p[3].trim_start_matches("cut=").parse().unwrap_or(usize::MAX);
+    let cut: usize = p[3]
+        .trim_start_matches("cut=")
+        .parse()
+        .unwrap_or(usize::MAX);
     let full = build(&req, &keys);
     let cut = cut.min(full.bytes.len()).min(MAX_DATAGRAM);
     let b = full.truncated(cut);
@@ -353,11 +409,23 @@ fn check() {
                     full = full.truncated(MAX_DATAGRAM);
                     loc.inc("capped_to_1024");
                 }
-                let n_sym = req.fields.iter().filter(|f| !matches!(f, Fld::Draft(true))).count();
+                let n_sym = req
+                    .fields
+                    .iter()
+                    .filter(|f| !matches!(f, Fld::Draft(true)))
+                    .count();
                 let n = full.bytes.len();
-                let cuts: Vec<usize> = if *trunc && n_sym <= trunc_len { (0..=n).collect() } else { vec![n] };
+                let cuts: Vec<usize> = if *trunc && n_sym <= trunc_len {
+                    (0..=n).collect()
+                } else {
+                    vec![n]
+                };
                 for cut in cuts {
-                    let b = if cut == n { full.clone() } else { full.truncated(cut) };
+                    let b = if cut == n {
+                        full.clone()
+                    } else {
+                        full.truncated(cut)
+                    };
                     let obs = judge(&findings, Some(loc), pair, *cfg, &keys, req, &b, cut);
                     if !obs.starts_with("both ignore") {
                         loc.distinct(common::hash_of(&(cfg, rotated, req, cut)));
@@ -366,7 +434,11 @@ fn check() {
             },
         );
         if ctx.over_budget() && ei + 1 < envs.len() {
-            ctx.cap_hit(&format!("budget reached after {} of {} environments", ei + 1, envs.len()));
+            ctx.cap_hit(&format!(
+                "budget reached after {} of {} environments",
+                ei + 1,
+                envs.len()
+            ));
             findings.flush(&ctx);
             ctx.exhaustive(false);
             ctx.finish();
